@@ -3,6 +3,7 @@ package gen
 import (
 	"fmt"
 	"math/rand"
+	"strings"
 
 	. "verif/harness/pqlref"
 	"verif/harness/val"
@@ -311,7 +312,13 @@ func (g *PipeGen) Op(kind string, s Schema, joinDepth int) (*Op, Schema) {
 	case "render":
 		op.Name = Ident{Name: []string{"barchart", "piechart", "table"}[g.Rng.Intn(3)]}
 		ns := append(Schema{}, s...)
-		if s.has("render_type") {
+		hasRender := false
+		for _, c := range s {
+			if strings.HasPrefix(c.Name.Name, "render_") {
+				hasRender = true
+			}
+		}
+		if hasRender {
 			// a second render would repeat its column names
 			return g.Op("where", s, joinDepth)
 		}
